@@ -4,6 +4,9 @@ manifest stays valid while checks are added)."""
 import json, os
 ROOT = os.path.dirname(os.path.abspath(__file__))
 CHECKS = {
+ "C19": dict(level="exploration", technique="reference validity model on a controlled pair of clocks (sender clock stamped in EXT_TIME, receiver clock of every push) + metamorphic skew-independence oracle at the monitoring writer",
+     text="About 900 hand-built scenarios (FDT durations, object emitted -10 s..+1 h around Expires, SCT on/off, check on/off, FDT-before-object and object-before-FDT, renewal by a valid or an already expired second instance, transit 0/0.2 s, in-band/FDT-only FTI) are each run under 11 (quick) / 31 (thorough) receiver clock skews from 3 s to 30 years; delivery must match the reference (valid instance at the estimated sender instant of the delivery start), objects announced only by expired instances must get no writer, and with SCT the writer log must be identical for every skew. Complete over the scenario grid.",
+     note="trusted: reference validity computation, independent encoder; +-2 s around Expires never generated", ref="DESIGN.md §5 C19"),
  "C18": dict(level="exploration", technique="metamorphic non-interference oracle over all interleavings of small session streams, counter-map reference model of the TSI filter over all operation sequences to a depth, per-(listener, session) trace automaton with call attribution, expiry-race stress",
      text="All interleavings (or seeded merges) of 2-4 sessions laid out over eight endpoint/TSI geometries must deliver per session exactly what the session delivers alone, with its own endpoint and TSI on every callback; all 24^d sequences of listen operations (d=3 quick, 4 thorough) are probed with 8 packets against a reference filter; thousands of listener scripts (data, close-session, cleanups after real sleeps, drop) and a 300-session expiry stress are judged by an open/close automaton that records the call in progress for every event. Complete for the enumerated interleavings and filter sequences, sampled beyond.",
      note="trusted: monitoring writer, reference filter, listener automaton; expiry is never assumed absent", ref="DESIGN.md §5 C18"),
